@@ -275,16 +275,22 @@ func (c *Client) handleOne() {
 		// gone by now: a request whose send reported an error is withdrawn
 		// by its caller (see sendRecv), also when the peer received it after
 		// all and this is its reply. Nobody is waiting for that reply.
+		//
+		// The reply is handed over in the same critical section that takes
+		// the entry out: a caller that withdraws at this moment either still
+		// finds its entry (and nothing delivered), or finds it gone and the
+		// completion already in its channel, which it discards. Completing a
+		// response after its owner has given it back to the pool would leave
+		// a result in it for whoever draws it next.
 		c.pendingMu.Lock()
 		resp := c.pending[t]
 		delete(c.pending, t)
-		c.pendingMu.Unlock()
-		if resp == nil {
-			return
+		if resp != nil {
+			resp.r = r
+			resp.done <- err
 		}
+		c.pendingMu.Unlock()
 		verifPoint("client:handleOne:before-deliver")
-		resp.r = r
-		resp.done <- err
 	}
 }
 
